@@ -43,7 +43,7 @@ def floors(tier):
             "path:sequential": 10 if q else 100, "path:parallel": 6 if q else 60, "workers_killed": 10 if q else 200, "reported_cycles_verified": 20 if q else 300,
             "timeout:0": 3, "timeout:1": 3, "timeout:2": 3, "timeout:-1": 3, "timeout:120": 3, "no_child_left_checked": 30 if q else 300,
             "monitor:clock_polls": 30, "tp_cp_compared": 30 if q else 300, "virtual_strikes": 40 if q else 600,
-            "completeness_checked_by_own_enumeration": 15 if q else 200, "structured_report_compared": 30 if q else 300, "parent_pauses_checked": 20 if q else 200, "untimed_after_cut_short": 3 if q else 50}
+            "completeness_checked_by_own_enumeration": 15 if q else 200, "structured_report_compared": 30 if q else 300, "parent_pauses_checked": 20 if q else 200, "untimed_after_cut_short": 3 if q else 30}
 
 
 def plan(tier, seed):
